@@ -34,7 +34,7 @@ func tsOfWire(s Shape, sc c06Scenario) string {
 		switch wireElem(s.Kind, sc) {
 		case "{type=[boolean]}":
 			return "boolean"
-		case "{type=[integer]}", "{type=[number]}":
+		case "{type=[integer]}", "{type=[integer] min0}", "{type=[number]}":
 			return "number"
 		case "{type=[string]}":
 			if s.Kind == "enum" {
